@@ -142,3 +142,121 @@ Proof.
     rewrite !E2 in Hm. apply Hm; [exact Hs|].
     intros c Hin. apply in_map_iff in Hin. destruct Hin as (ce & <- & Hce). apply Hex. exact Hce.
 Qed.
+
+(** ** no under-billing: the billed 1024ths are the job's true share of the cores rounded DOWN *)
+Lemma worker_fraction_floor cores cpu : 0 < cores ->
+  worker_fraction cores cpu * (cores * 1000) <= 1024 * cpu < (worker_fraction cores cpu + 1) * (cores * 1000).
+Proof.
+  intros Hc. unfold worker_fraction. set (d := cores * 1000). assert (Hd : 0 < d) by (unfold d; lia).
+  pose proof (Z.div_mod (1024 * cpu) d ltac:(lia)) as E. pose proof (Z.mod_pos_bound (1024 * cpu) d Hd) as B. nia.
+Qed.
+
+(** what a job is billed of one resource of the worker, given the 1024ths [wf] of the worker it holds *)
+Definition share_amount (k : rkind) (wf : Z) (j : job) : Z :=
+  match k with
+  | KStaticDisk g => g * wf
+  | KVM | KIPFee => wf
+  | KAccelerator n => n * wf
+  | KCompute | KServiceFee | KPerCpuFee => j_cpu j
+  | KMemory => j_mem j / 1024 / 1024
+  | _ => 0
+  end.
+
+(** for ANY worker size and ANY job: the 1024ths of the worker the job is billed are its exact share of the cores
+    rounded down to a whole 1024th — never more than the share, never a whole 1024th less *)
+Theorem job_share_floor cores (k : rkind) (j : job) : 0 < cores -> worker_resource k = true ->
+  exists wf, wf * (cores * 1000) <= 1024 * j_cpu j < (wf + 1) * (cores * 1000) /\
+             job_quantity cores k j = Billed (share_amount k wf j).
+Proof.
+  intros Hc Hw. exists (worker_fraction cores (j_cpu j)). split; [apply worker_fraction_floor; exact Hc|].
+  unfold job_quantity. destruct k; cbn [worker_resource] in Hw; try discriminate; reflexivity.
+Qed.
+
+(** ** exact packings of a pool worker *)
+Lemma zsum_div_exact {A} (f : A -> Z) (d : Z) (l : list A) : 0 < d ->
+  (forall x, In x l -> f x mod d = 0) -> zsum (fun x => f x / d) l * d = zsum f l.
+Proof.
+  intros Hd H. induction l as [|x l IH]; cbn [zsum]; [reflexivity|].
+  rewrite Z.mul_add_distr_r, IH by (intros y Hy; apply H; right; exact Hy).
+  pose proof (H x (or_introl eq_refl)) as Hx. pose proof (Z.div_mod (f x) d ltac:(lia)). lia.
+Qed.
+
+Lemma pow2_le_256_divides cores : is_power_two cores = true -> cores <= 256 -> 0 < cores /\ 256 mod cores = 0.
+Proof.
+  intros Hp Hle.
+  assert (Hpos : 0 < cores) by (unfold is_power_two in Hp; apply andb_true_iff in Hp; destruct Hp as [Hp _]; apply Z.ltb_lt in Hp; exact Hp).
+  split; [exact Hpos|].
+  assert (T : forallb (fun c => implb (is_power_two c) (256 mod c =? 0)) (map Z.of_nat (seq 1 256)) = true) by (vm_compute; reflexivity).
+  rewrite forallb_forall in T. specialize (T cores).
+  assert (Hin : In cores (map Z.of_nat (seq 1 256))).
+  { apply in_map_iff. exists (Z.to_nat cores). split; [lia|]. apply in_seq. lia. }
+  specialize (T Hin). rewrite Hp in T. cbn [implb] in T. apply Z.eqb_eq in T. exact T.
+Qed.
+
+(** packable core requests: 250 mcpu * 2^k *)
+Definition packable_mcpu (mcpu : Z) : Prop := exists k, 0 <= k /\ mcpu = 250 * 2 ^ k.
+
+Lemma packable_fraction_exact cores mcpu : 0 < cores -> 256 mod cores = 0 -> packable_mcpu mcpu ->
+  (1024 * mcpu) mod (cores * 1000) = 0.
+Proof.
+  intros Hc Hd (k & Hk & ->).
+  pose proof (Z.div_mod 256 cores ltac:(lia)) as E. rewrite Hd, Z.add_0_r in E.
+  set (d := 256 / cores) in *. set (P := 2 ^ k).
+  replace (1024 * (250 * P)) with (d * P * (cores * 1000)) by nia.
+  apply Z.mod_mul. lia.
+Qed.
+
+Lemma worker_fraction_exact_sum cores (reqs : list (Z * Z)) : 0 < cores -> 256 mod cores = 0 ->
+  (forall ce, In ce reqs -> packable_mcpu (fst ce)) -> zsum fst reqs = cores * 1000 ->
+  zsum (fun ce => worker_fraction cores (fst ce)) reqs = 1024.
+Proof.
+  intros Hc Hd Hp Hs. unfold worker_fraction.
+  pose proof (zsum_div_exact (fun ce : Z * Z => 1024 * fst ce) (cores * 1000) reqs ltac:(lia)) as H. cbv beta in H.
+  rewrite zsum_scale, Hs in H.
+  assert (H' := H (fun ce Hce => packable_fraction_exact cores (fst ce) Hc Hd (Hp ce Hce))).
+  nia.
+Qed.
+
+(** a pool worker (power-of-two cores <= 256) packed EXACTLY with packable requests whose memory is a whole number of MiB
+    (what quantified_resources asserts): the jobs are billed, together, exactly the whole worker — nothing is billed to nobody *)
+Theorem pool_exact_packing mpc cores (k : rkind) (reqs : list (Z * Z)) :
+  is_power_two cores = true -> cores <= 256 -> 0 <= mpc -> worker_resource k = true ->
+  (forall ce, In ce reqs -> packable_mcpu (fst ce)) ->
+  (forall ce, In ce reqs -> job_memory (mpc * (1024 * 1024)) (fst ce) mod (1024 * 1024) = 0) ->
+  zsum fst reqs = cores * 1000 ->
+  zsum (fun ce => billed (job_quantity cores k (pool_job (mpc * (1024 * 1024)) ce))) reqs
+  = billed (job_quantity cores k (whole cores (mpc * (1024 * 1024) * cores))).
+Proof.
+  intros Hp Hle Hm Hw Hpk Hmib Hs.
+  destruct (pow2_le_256_divides cores Hp Hle) as [Hc Hd].
+  pose proof (worker_fraction_exact_sum cores reqs Hc Hd Hpk Hs) as Hwf.
+  rewrite (whole_is_whole cores _ k Hc Hw). cbn [billed].
+  unfold job_quantity, pool_job, j_cpu, j_mem, j_ext. cbn [fst snd].
+  destruct k; cbn [worker_resource] in Hw; try discriminate; cbn [quantity billed].
+  - rewrite zsum_scale, Hwf. reflexivity.
+  - exact Hs.
+  - exact Hwf.
+  - rewrite zsum_scale, Hwf. reflexivity.
+  - (* memory *)
+    set (bpc := mpc * (1024 * 1024)) in *.
+    rewrite (zsum_ext (fun ce : Z * Z => job_memory bpc (fst ce) / 1024 / 1024) (fun ce => job_memory bpc (fst ce) / (1024 * 1024)))
+      by (intros; apply Z.div_div; lia).
+    rewrite Z.div_div by lia.
+    pose proof (zsum_div_exact (fun ce : Z * Z => job_memory bpc (fst ce)) (1024 * 1024) reqs ltac:(lia) Hmib) as H1.
+    assert (H2 : 1000 * zsum (fun ce : Z * Z => job_memory bpc (fst ce)) reqs = bpc * zsum fst reqs).
+    { assert (Hex : forall ce, In ce reqs -> (fst ce * bpc) mod 1000 = 0).
+      { intros ce Hce. destruct (Hpk ce Hce) as (e & He & ->). unfold bpc.
+        replace (250 * 2 ^ e * (mpc * (1024 * 1024))) with ((2 ^ e * mpc * 262144) * 1000) by lia. apply Z.mod_mul. lia. }
+      clear - Hex. induction reqs as [|x l IH]; cbn [zsum]; [lia|].
+      rewrite !Z.mul_add_distr_l, IH by (intros y Hy; apply Hex; right; exact Hy).
+      pose proof (Hex x (or_introl eq_refl)) as Hx. unfold job_memory.
+      pose proof (Z.div_mod (fst x * bpc) 1000 ltac:(lia)). lia. }
+    rewrite Hs in H2.
+    assert (H3 : zsum (fun ce : Z * Z => job_memory bpc (fst ce)) reqs = bpc * cores) by lia.
+    rewrite H3 in H1. unfold bpc in *.
+    replace (mpc * (1024 * 1024) * cores) with (mpc * cores * (1024 * 1024)) in * by lia.
+    rewrite Z.div_mul by lia. lia.
+  - exact Hwf.
+  - exact Hs.
+  - exact Hs.
+Qed.
